@@ -50,13 +50,24 @@ fn judge(c: &Case, sigs: &[sig::Sig], t: &mut Tally, v: &mut Vec<Violation>) {
         }
         return;
     }
+    // Requests whose length field or TLVs are inconsistent, or with a CHANGE-REQUEST of another
+    // size than 4: whether they are answered, and from which port, is not judged - but if a
+    // STUN response comes back, it must still be the right one (same id, observed address).
+    let mut strict = true;
     if !m.len_matches || !m.tiles {
         t.any("length-or-tlvs-inconsistent");
-        return;
-    }
-    if m.odd_change_requests() > 0 {
+        strict = false;
+    } else if m.odd_change_requests() > 0 {
         t.any("change-request-of-odd-size");
-        return;
+        strict = false;
+    }
+    if !strict {
+        match c.reply.and_then(stun::parse) {
+            Some(rm) if rm.ty == 0x0101 && c.reply.map(|r| r.len() >= 20).unwrap_or(false) => {
+                t.probe("malformed-request-answered-response-checked");
+            }
+            _ => return,
+        }
     }
     let cp = m.change_port_count();
     let signame = match &d {
@@ -65,7 +76,16 @@ fn judge(c: &Case, sigs: &[sig::Sig], t: &mut Tally, v: &mut Vec<Violation>) {
     };
     t.judged(
         Verdict::Reply,
-        format!("{}|{}|attrs{}|cp{}|sport{}", c.carrier, signame, m.attrs.len().min(3), cp.min(2), if c.sport == 65535 { "max" } else { "-" }),
+        format!(
+            "{}|{}|attrs{}{}|cp{}|sport{}{}",
+            c.carrier,
+            signame,
+            m.attrs.len().min(3),
+            if m.attrs.iter().any(|(_, val)| val.len() % 4 != 0) { "+padded" } else { "" },
+            cp.min(2),
+            if c.sport == 65535 { "max" } else { "-" },
+            if strict { "" } else { "|malformed" }
+        ),
     );
     if c.sport == 65535 {
         t.probe("source-port-65535");
@@ -73,7 +93,13 @@ fn judge(c: &Case, sigs: &[sig::Sig], t: &mut Tally, v: &mut Vec<Violation>) {
     let r = match c.reply {
         Some(r) if !r.is_empty() => r,
         _ => {
-            let why = if m.magic && c.payload[2] == 0 { "rfc5389-length-below-256" } else { "other" };
+            let why = if m.attrs.iter().any(|(_, val)| val.len() % 4 != 0) {
+                "attribute-length-not-multiple-of-4"
+            } else if m.magic && c.payload[2] == 0 {
+                "rfc5389-length-below-256"
+            } else {
+                "other"
+            };
             bad(
                 "unanswered",
                 format!("unanswered:{}:{}", signame, why),
@@ -116,7 +142,7 @@ fn judge(c: &Case, sigs: &[sig::Sig], t: &mut Tally, v: &mut Vec<Violation>) {
         }
         None => bad("mapped-missing", "mapped-missing".into(), "response without a decodable MAPPED-ADDRESS".into()),
     }
-    if let Some(rs) = c.reply_sport {
+    if let (Some(rs), true) = (c.reply_sport, strict) {
         let want = if cp == 1 { c.dport.wrapping_add(1) } else { c.dport };
         if cp <= 1 && rs != want {
             bad("change-port", format!("change-port:{}", cp), format!("response sent from port {}, expected {} ({} change-port request)", rs, want, cp));
